@@ -174,21 +174,24 @@ Lemma step_preserves (P : state -> Prop) :
   (forall s k c qa res n ar ws, (1 <= n)%nat -> P s -> P (enqueue s k c qa res n ar ws)) ->
   (forall s x, P s -> P (set_subs s x)) ->
   (forall s u us, P s -> P (qubit_change s u us)) ->
+  (forall s ar, P s -> P (declare s ar)) ->
   forall s e s', P s -> step s e = (s', None) -> P s'.
 Proof.
-  intros Hhit Harr Henq Hsub Hq s e s' Ps H.
+  intros Hhit Harr Henq Hsub Hq Hdecl s e s' Ps H.
   assert (Hdrain : forall s0 s1, P s1 -> of_pres s0 (handle_all s1) = (s', None) -> P s').
   { intros s0 s1 P1 H1. unfold of_pres in H1. destruct (handle_all s1) as [s2| |] eqn:E; inversion H1; subst.
     exact (proj1 (handle_pending_ind P Hhit _ _ _ P1 E)). }
   assert (Hpoll : forall s1 sid, P s1 -> poll s1 sid = (s', None) -> P s').
   { intros s1 sid P1 H1. unfold poll in H1. destruct (aget Z.eqb sid (subs s1)) as [ws|]; [|discriminate].
     destruct (advance (arrs s1) ws) as [[|w ws']|]; inversion H1; subst; apply Hsub; exact P1. }
-  destruct e as [k tpk vs n qarr args res ws|k vs n qarr res ws|r| |sid|v|v]; cbn [step] in H.
+  destruct e as [k tpk vs n qarr args res ws|k vs n qarr res ws|k tpk vs n qarr args res|r| |sid|v|v]; cbn [step] in H.
   - destruct (Nat.eqb n 0) eqn:En; cbn [orb] in H; [discriminate|].
     destruct (tpk && negb (Nat.eqb (List.length vs) n)); [discriminate|].
     apply Nat.eqb_neq in En. eapply Hpoll; [|exact H]. apply Henq; [lia | exact Ps].
   - destruct (Nat.eqb n 0) eqn:En; [discriminate|].
     apply Nat.eqb_neq in En. eapply Hpoll; [|exact H]. apply Henq; [lia | exact Ps].
+  - destruct (Nat.eqb n 0 || tpk && negb (Nat.eqb (List.length vs) n)); [discriminate|].
+    inversion H; subst. apply Hdecl. exact Ps.
   - eapply Hdrain; [|exact H]. apply (Harr s r Ps).
   - eapply Hdrain; [|exact H]. exact Ps.
   - eapply Hpoll; eauto.
@@ -250,6 +253,7 @@ Proof.
   - intros s k c qa res n ar ws _ H. exact H.
   - intros s x H. exact H.
   - intros s u us H. exact H.
+  - intros s ar H. exact H.
 Qed.
 
 Theorem exactly_once_run nd n es s : run (init_state nd n) es = Some s -> exactly_once s.
@@ -320,6 +324,7 @@ Proof.
       * constructor; [cbn; lia | constructor].
   - intros s x H. exact H.
   - intros s u us H. exact H.
+  - intros s ar H. exact H.
 Qed.
 
 Lemma ids_ok_init nd n : ids_ok (init_state nd n).
@@ -437,6 +442,7 @@ Proof.
       rewrite (count_zero _ _ B). split; lia.
   - intros s x H. exact H.
   - intros s u us H. exact H.
+  - intros s ar H. exact H.
 Qed.
 
 Lemma counts_ok_init nd n : counts_ok (init_state nd n).
@@ -763,6 +769,7 @@ Proof.
         -- right. split; [|exact Hcnt]. intros x Hx. apply in_app_or in Hx. destruct Hx as [Hx|[<-|[]]]; [auto | cbn; lia].
   - intros s x H. exact H.
   - intros s u us H. exact H.
+  - intros s ar H. exact H.
 Qed.
 
 Lemma retired_ok_init nd n : retired_ok (init_state nd n).
@@ -777,4 +784,46 @@ Proof.
   intros R Hi Hn.
   destruct (run_preserves retired_ok retired_ok_step es _ _ (retired_ok_init nd n) R) as [_ AC].
   destruct (AC id tot Hi) as [_ [(x & Hx & Hxi & _)|[_ H]]]; [exfalso; exact (Hn x Hx Hxi) | exact H].
+Qed.
+
+(* ------------------------------------------------------------------ a refused request leaves nothing behind *)
+(* network_stack.put raising inside create_epr: the subroutine ends there; the request queues,
+   the pending list, the consumption log, the waiting subroutines and the unit module are
+   exactly as before the instruction (only the arrays the subroutine declared exist) *)
+Theorem put_fault_leaves_queues_unchanged s k tpk vs n qarr args res s' :
+  step s (CreateRefused k tpk vs n qarr args res) = (s', None) ->
+  reqs s' = reqs s /\ pend s' = pend s /\ log s' = log s /\ subs s' = subs s /\ um s' = um s /\
+  issued s' = issued s /\ next_req s' = next_req s /\
+  forall k' c, queue s' k' c = queue s k' c.
+Proof.
+  cbn [step]. destruct (Nat.eqb n 0 || tpk && negb (Nat.eqb (List.length vs) n)); [discriminate|].
+  intros H. inversion H; subst. cbn. repeat split; reflexivity.
+Qed.
+
+(* so a retry after the refusal is the only outstanding request of its key: the responses of
+   the accepted request are charged to it (first match of an id-sorted list) *)
+Theorem retry_after_refusal_is_head nd k tpk vs n qarr args res vs2 n2 qarr2 args2 res2 ws s1 s2 s3 r :
+  step s1 (CreateRefused k tpk vs n qarr args res) = (s2, None) ->
+  step s2 (Create k tpk vs2 n2 qarr2 args2 res2 ws) = (s3, None) ->
+  node s1 = nd -> find (matches nd r) (reqs s1) = None ->
+  matches nd r (mkReq (next_req s1) k true (next_sid s2) res2 (if tpk then Some qarr2 else None) n2 n2) = true ->
+  exists q, find (matches nd r) (reqs s3) = Some q /\ q_res q = res2 /\ q_id q = next_req s1.
+Proof.
+  intros H1 H2 Hn Hf Hm.
+  destruct (put_fault_leaves_queues_unchanged _ _ _ _ _ _ _ _ _ H1) as (R & _ & _ & _ & _ & _ & NR & _).
+  assert (N2 : node s2 = nd).
+  { cbn [step] in H1. destruct (Nat.eqb n 0 || tpk && negb (Nat.eqb (List.length vs) n)); [discriminate|].
+    inversion H1; subst. reflexivity. }
+  cbn [step] in H2. destruct (Nat.eqb n2 0 || tpk && negb (Nat.eqb (List.length vs2) n2)); [discriminate|].
+  unfold poll in H2. cbn [enqueue subs next_sid arrs] in H2. rewrite agetZ_aset, Z.eqb_refl in H2.
+  assert (RQ : reqs s3 = reqs s2 ++ [mkReq (next_req s2) k true (next_sid s2) res2 (if tpk then Some qarr2 else None) n2 n2]).
+  { destruct (advance _ ws) as [[|w ws']|]; inversion H2; subst; reflexivity. }
+  assert (N3 : node s3 = nd).
+  { destruct (advance _ ws) as [[|w ws']|]; inversion H2; subst; exact N2. }
+  rewrite RQ, R, NR. exists (mkReq (next_req s1) k true (next_sid s2) res2 (if tpk then Some qarr2 else None) n2 n2).
+  split; [|split; reflexivity].
+  assert (G : forall l x, find (matches nd r) l = None -> matches nd r x = true -> find (matches nd r) (l ++ [x]) = Some x).
+  { induction l as [|a l IH]; cbn [find app]; intros x F M; [rewrite M; reflexivity|].
+    destruct (matches nd r a); [discriminate | apply IH; assumption]. }
+  apply G; assumption.
 Qed.
